@@ -722,6 +722,12 @@ def e2e_verbatim(ck, rng, projects, modes_full):
             gvals = [g for g in gs if g == 1.0] + rng.sample(lows, min(len(lows), 1))
             ps3 = sorted(set(s for e, s in P0.items() if s in ps and any(len(g) >= 3 and e <= g for g in G0)))
             pvals = rng.sample(ps3 or ps, min(len(ps3 or ps), 1))
+            if not modes_full and mode != "connected" and gvals[1:] and pvals:
+                # quick tier: connected (the exact clause) gets both, the other modes 1.0 and a seeded one of the two
+                if rng.random() < 0.5:
+                    gvals = gvals[:1]
+                else:
+                    pvals = []
             if modes_full:
                 more = [g for g in gs if g < 1.0 and g not in gvals]
                 gvals += rng.sample(more, min(len(more), 2))
@@ -1294,7 +1300,7 @@ def main(tier):
                 "next to near copies that form mixed components, under every grouping_mode with the default range [0, 1] (full contract against the "
                 "reported pairs, Python + proved checker; connected = exactly the components of the reported pair graph), then for every mode "
                 "min_similarity resp. max_similarity exactly at / 2^-40 below / 2^-40 above 1.0, an observed group similarity < 1 (of a group with >= 3 "
-                "members if there is one) and an observed pair similarity" + (" (thorough: up to 3 each)" if thorough else "") + ": (a) the reported pairs "
+                "members if there is one) and an observed pair similarity" + (" (up to 3 each)" if thorough else " (quick: connected mode all three values, the other modes 1.0 and a seeded one of the other two)") + ": (a) the reported pairs "
                 "and the reported groups are exactly the pairs / groups of the default-range run of the same mode whose similarity s satisfies "
                 "min <= s <= max (both bounds inclusive, the same for pairs and groups), (b) the contract of the mode on the REPORTED pairs; a failure "
                 "of (b) where (a) holds and the default-range run meets the contract is the recorded finding C10-F29 (range filter after grouping), "
